@@ -698,6 +698,18 @@ func coqCase(id int, in Input, ob Obs) string {
 	return fmt.Sprintf("mkCase %d%%N %d%%N %s %s", id, in.Svc, hx.CoqList(tr, "(N*input)"), hx.CoqList(os_, "ostep"))
 }
 
+// the directory tree the ftp service serves: /a/c and /b, nothing else
+var ftpRoot string
+
+func resetFtpTree() {
+	os.RemoveAll(ftpRoot)
+	for _, d := range []string{"a/c", "b"} {
+		if err := os.MkdirAll(filepath.Join(ftpRoot, d), 0o755); err != nil {
+			hx.Fatal("mkdir: %v", err)
+		}
+	}
+}
+
 func setupStorage(out string) {
 	db := filepath.Join(out, "db")
 	os.RemoveAll(db)
@@ -706,12 +718,8 @@ func setupStorage(out string) {
 	}
 	storage.SetDataDir(db)
 	base := filepath.Join(out, "fsbase")
-	os.RemoveAll(base)
-	for _, d := range []string{"a/c", "b"} {
-		if err := os.MkdirAll(filepath.Join(base, "ftp", "root", d), 0o755); err != nil {
-			hx.Fatal("mkdir: %v", err)
-		}
-	}
+	ftpRoot = filepath.Join(base, "ftp", "root")
+	resetFtpTree()
 	st, err := storage.Namespace("ftp")
 	if err != nil {
 		hx.Fatal("storage: %v", err)
@@ -755,6 +763,8 @@ type anyInput struct {
 	Variant string   `json:"variant"`
 	Hist    int      `json:"hist"`
 	Cfg     []SEntry `json:"cfg"`
+	Conns   []PConn  `json:"conns"`
+	DelayMs int      `json:"delay_ms"`
 	History []SDest  `json:"history"`
 	SProbe  *SDest   `json:"-"`
 }
@@ -827,6 +837,8 @@ func main() {
 			hx.Fatal("replay: %v", err)
 		}
 		switch {
+		case in.Conns != nil:
+			peekPart(o, r, &PInput{Conns: in.Conns, DelayMs: in.DelayMs})
 		case in.Cfg != nil:
 			var sin SInput
 			if err := hx.LoadReplay(o.Only, &sin); err != nil {
@@ -846,6 +858,7 @@ func main() {
 	diffPart(o, hx.NewRand(o.Seed+1000003), nil)
 	limPart(o, hx.NewRand(o.Seed+2000003), nil)
 	srvPart(o, hx.NewRand(o.Seed+3000003), nil)
+	peekPart(o, hx.NewRand(o.Seed+4000003), nil)
 }
 
 func lower(s string) string { return strings.ToLower(s) }
